@@ -25,6 +25,12 @@ Section BucketFacts.
   Definition slots_unique (b : list (entry D)) : Prop :=
     ForallOrdPairs (fun x y => same x y = false) b.
 
+  (** the sorting function: any function returning a metric-sorted
+      permutation of its argument *)
+  Variable srt : list (entry D) -> list (entry D).
+  Hypothesis srt_perm : forall l, Permutation (srt l) l.
+  Hypothesis srt_sorted : forall l, msorted (srt l).
+
   Lemma ins_perm : forall x l, Permutation (ins x l) (x :: l).
   Proof.
     induction l as [|y l IH]; simpl; [reflexivity|].
@@ -196,16 +202,16 @@ Section BucketFacts.
   Qed.
 
   Lemma bucket_add_inv : forall r b b',
-    slots_unique b -> bucket_add same r b = Some b' ->
+    slots_unique b -> bucket_add same srt r b = Some b' ->
     msorted b' /\ slots_unique b' /\
     exists b0, bucket_put same r b = Some b0 /\ Permutation b' b0.
   Proof.
     unfold bucket_add. intros r b b' Hu H.
     destruct (bucket_put same r b) as [b0|] eqn:E; [|discriminate].
-    inversion H; subst. split; [apply isort_sorted|]. split.
-    - eapply slots_unique_perm; [symmetry; apply isort_perm|].
+    inversion H; subst. split; [apply srt_sorted|]. split.
+    - eapply slots_unique_perm; [symmetry; apply srt_perm|].
       eapply bucket_put_slots; eauto.
-    - exists b0. split; [reflexivity|apply isort_perm].
+    - exists b0. split; [reflexivity|apply srt_perm].
   Qed.
 
   Lemma bucket_put_in_iff : forall r b b' y,
@@ -319,6 +325,9 @@ Section TableFacts.
   Hypothesis same_refl : forall x, same x x = true.
   Hypothesis same_sym : forall x y, same x y = same y x.
   Hypothesis same_trans : forall x y z, same x y = true -> same y z = true -> same x z = true.
+  Variable srt : list (entry D) -> list (entry D).
+  Hypothesis srt_perm : forall l, Permutation (srt l) l.
+  Hypothesis srt_sorted : forall l, msorted (srt l).
   (** what must hold of an entry stored under key k (table specific) *)
   Variable P : K -> entry D -> Prop.
   Implicit Types (t : table K D) (k : K) (b : list (entry D)) (x y r : entry D).
@@ -506,13 +515,13 @@ Section TableFacts.
 
   (** ** tadd / tremove *)
   Lemma tadd_inv : forall t k r t' ok, table_inv t -> P k r ->
-    tadd keqb same k r t = (t', ok) -> table_inv t'.
+    tadd keqb same srt k r t = (t', ok) -> table_inv t'.
   Proof.
     unfold tadd. intros t k r t' ok Hinv HP H.
-    destruct (bucket_add same r (tget keqb k t)) as [b|] eqn:E; inversion H; subst; [|assumption].
+    destruct (bucket_add same srt r (tget keqb k t)) as [b|] eqn:E; inversion H; subst; [|assumption].
     apply tset_inv; [assumption|].
     pose proof (tget_ok t k Hinv) as (Hs & Hu & HPk).
-    destruct (bucket_add_inv same same_sym same_trans _ _ _ Hu E) as (Hs' & Hu' & b0 & Hput & Hperm).
+    destruct (bucket_add_inv same same_sym same_trans srt srt_perm srt_sorted _ _ _ Hu E) as (Hs' & Hu' & b0 & Hput & Hperm).
     split; [assumption|]. split; [assumption|].
     intros x Hx. apply (Permutation_in _ Hperm) in Hx.
     apply (bucket_put_in_iff same same_sym same_trans _ _ _ _ Hu Hput) in Hx.
@@ -532,10 +541,10 @@ Section TableFacts.
 
   (** what tadd does to every bucket *)
   Lemma tadd_get : forall t k r t' ok, keys_nodup t ->
-    tadd keqb same k r t = (t', ok) ->
+    tadd keqb same srt k r t = (t', ok) ->
     (forall k', k' <> k -> tget keqb k' t' = tget keqb k' t) /\
     (ok = false -> t' = t /\ bucket_put same r (tget keqb k t) = None) /\
-    (ok = true -> exists b0, bucket_put same r (tget keqb k t) = Some b0 /\ tget keqb k t' = isort b0).
+    (ok = true -> exists b0, bucket_put same r (tget keqb k t) = Some b0 /\ tget keqb k t' = srt b0).
   Proof.
     unfold tadd, bucket_add. intros t k r t' ok Hn H.
     destruct (bucket_put same r (tget keqb k t)) as [b0|] eqn:E; inversion H; subst.
@@ -617,7 +626,7 @@ Section TableFacts.
   Qed.
 
   Lemma tadd_grow : forall t k r t' ok, table_inv t ->
-    tadd keqb same k r t = (t', ok) -> grow t t'.
+    tadd keqb same srt k r t = (t', ok) -> grow t t'.
   Proof.
     intros t k r t' ok Hinv H.
     destruct (tadd_get t k r t' ok (proj1 Hinv) H) as (Hother & Hfalse & Htrue).
@@ -628,7 +637,7 @@ Section TableFacts.
       + intros k' x y Hx Hy Hs. unfold stored in *.
         destruct (keqb k' k) eqn:E.
         * apply keqb_spec in E. subst k'. rewrite Hget in Hy.
-          apply (Permutation_in _ (isort_perm b0)) in Hy.
+          apply (Permutation_in _ (srt_perm b0)) in Hy.
           eapply (bucket_put_rule same same_sym same_trans); eauto.
         * assert (k' <> k) by (intros ->; rewrite keqb_refl in E; discriminate).
           rewrite (Hother k' H0) in Hy. left. symmetry.
@@ -639,10 +648,10 @@ Section TableFacts.
         * apply keqb_spec in E. subst k'. rewrite Hget.
           destruct (same x r) eqn:Er.
           -- exists r. split; [|assumption].
-             apply (Permutation_in _ (Permutation_sym (isort_perm b0))).
+             apply (Permutation_in _ (Permutation_sym (srt_perm b0))).
              apply (bucket_put_in_iff same same_sym same_trans _ _ _ _ Hu Hput). now left.
           -- exists x. split; [|apply same_refl].
-             apply (Permutation_in _ (Permutation_sym (isort_perm b0))).
+             apply (Permutation_in _ (Permutation_sym (srt_perm b0))).
              apply (bucket_put_in_iff same same_sym same_trans _ _ _ _ Hu Hput). right. now split.
         * assert (k' <> k) by (intros ->; rewrite keqb_refl in E; discriminate).
           exists x. split; [now rewrite (Hother k' H0)|apply same_refl].
